@@ -45,7 +45,9 @@ PYSCAL = [2, 3, -3, 0.5, 2.0, -1.5, 0, 1, 0.0, 1.0]
 NPSCAL = [('f4', 2), ('i2', 3), ('f8', 1), ('i8', 0)]
 COLS = [('slice', [1, None]), ('list', [2, 0]), ('perm', [1, 2, 0]),
         # width-relative forms: they mean something else once an earlier selection has narrowed the recording
-        ('slice', [-2, None]), ('slice', [None, None, -1]), ('list', [-1, 0])]
+        ('slice', [-2, None]), ('slice', [None, None, -1]), ('list', [-1, 0]),
+        # boolean masks (full width; width 2, valid only after a narrowing selection), runs of negative indices
+        ('mask', [False, True, True, False, True]), ('mask', [False, True]), ('list', [-2, -1])]
 
 
 def alphabet():
@@ -69,6 +71,8 @@ def arg_value(arg):
             return slice(*arg['v'])
         if arg['c'] == 'perm':
             return np.array(arg['v'])
+        if arg['c'] == 'mask':
+            return np.array(arg['v'], dtype=bool)
         return list(arg['v'])
     return arg
 
